@@ -466,6 +466,9 @@ func (s *ReceiveStream) handleResetStreamFrameImpl(frame *wire.ResetStreamFrame,
 	}
 	// ignore duplicate RESET_STREAM frames for this stream (after checking their final offset)
 	if s.cancelledRemotely {
+		// The reliable size might have been reduced to (or below) the read position:
+		// a blocked Read needs to re-evaluate whether the reset error is due now.
+		s.signalRead()
 		return nil
 	}
 
